@@ -47,6 +47,15 @@ CORPUS = [
     ("reassoc", [["reg", "a", 32], ["cst", 5, 32], ["sub"], ["reg", "b", 32], ["cst", 7, 32], ["add"], ["sub"], ["neg"]], 0,
      [["a", 32, 100], ["b", 32, 0xffffffff]]),
     ("asr-over", [["reg", "a", 16], ["signed"], ["cst", 40, 16], ["asr"]], 0, [["a", 16, 0x8000]]),
+    ("logic-call-clobbers-sf", [["reg", "B", 1], ["signed"], ["cst", 1, 1], ["signed"], ["reg", "r", 1], ["signed"], ["and"], ["pow"]], 0,
+     [["B", 1, 1], ["r", 1, 1]]),
+    ("slice-of-xor-keeps-sf", [["reg", "t", 33], ["signed"], ["reg", "u", 33], ["signed"], ["xor"], ["slice", 0, 32], ["reg", "y", 32], ["signed"],
+                               ["mod"]], 0, [["t", 33, 4171687552], ["u", 33, 0], ["y", 32, 2908375879]]),
+    ("top-hash-equality", [["cst", 2, 2], ["cst", 15, 4], ["reg", "_t", 2], ["cst", 3, 2], ["lt"], ["compose", 3], ["cst", 0, 7], ["lt"],
+                           ["cst", 0, 1], ["and"], ["cst", 16, 11], ["reg", "zf", 1], ["reg", "_t", 2], ["cst", 2, 2], ["compose", 4],
+                           ["sext", 128], ["cst", 64, 128], ["rol"], ["cst", 0, 128], ["eq"], ["not"], ["ne"]], 10, [["_t", 2, 1], ["zf", 1, 1]]),
+    ("eq-signed-bit1", [["cst", 3, 2], ["signed"], ["reg", "c", 2], ["signed"], ["lt"], ["cst", 1, 1], ["signed"], ["eq"]], 0, [["c", 2, 0]]),
+    ("rot-symbolic-narrow-amount", [["cst", 32, 33], ["reg", "n", 5], ["rorh"]], 0, [["n", 5, 1]]),
     ("x-op-x", [["reg", "a", 32], ["reg", "b", 32], ["add"], ["reg", "a", 32], ["reg", "b", 32], ["add"], ["xor"]], 0, [["a", 32, 3], ["b", 32, 4]]),
 ]
 
@@ -267,7 +276,14 @@ def run_check(prop, tier):
         sig = "%s:%s:%s:%s" % (prop, kind, act, shape(small) if shrunk or len(script) <= 6 else "(not shrunk)")
         if len(sig) > 300:
             sig = sig[:300]
-        out2, _, _ = R.run(small, action, cx)
+        out2, d2, _ = R.run(small, action, cx)
+        if kind in ("value", "raise") and rho:
+            try:
+                rv2 = F.evaluate(small, d2, rho)
+                if rv2 is not None:
+                    expected = "value in %s (width %d)" % (sorted(rv2[1])[:3], rv2[0])
+            except Exception:
+                pass
         theorem = {"value": "Amoco.C01.simplify_sound / eval_sound (correspondence + reference evaluator)",
                    "raise": "Amoco.C01.simplify_sound / eval_sound: the real code raises where the reference defines a value",
                    "width": "Amoco.C12.width_simplify / width_eval",
@@ -295,6 +311,9 @@ def run_check(prop, tier):
             except Exception:
                 refs.append((rho, None))
         viol = False
+        if want_c01 and action[0] == "simplify" and action[1] == "widening":
+            # widening produces vec / vecw (C19's fragment): only widths are judged on it (C12)
+            return False
         if want_c01:
             if real[0] == "raise":
                 for rho, rv in refs:
@@ -308,6 +327,21 @@ def run_check(prop, tier):
             elif real[0] == "ok" and real[1][0] == "cst":
                 for rho, rv in refs:
                     if rv is not None and real[1][1] not in rv[1]:
+                        if cx > 0 and isinstance(model, list) and model[0] == "ok" and R.strip_smask(real[1]) == model[1]:
+                            # attribute to the hash-equality shortcut on two `top` operands: the model reproduces the
+                            # wrong constant, and no longer does when that shortcut is switched off for tops
+                            m2 = drv.ask({"op": "expr.run", "script": script, "action": action, "cplx": cx, "topeq": False})
+                            if isinstance(m2, list) and m2[0] == "ok" and (m2[1][0] != "cst" or m2[1][1] in rv[1]):
+                                ck.report("C01:value:top-hash-equality",
+                                          "with the complexity threshold on, a comparison of two `top` operands is decided by "
+                                          "hash(str)+size equality: e.g. (T1 != T1) is bit0 although the two unknowns differ "
+                                          "(script %s, complexity %d: real %s, reference %s)"
+                                          % (json.dumps(script)[:300], cx, real[2], sorted(rv[1])[:2]),
+                                          "oracle", "Amoco.C01 (apiExp hash-equality shortcut on `top`)",
+                                          case={"script": script, "action": action, "complexity": cx}, real=real, model=model,
+                                          expected=str(sorted(rv[1])[:2]))
+                                viol = True
+                                break
                         def fails(s2, rho=rho):
                             o2, d2, _ = R.run(s2, action, cx)
                             rv2 = F.evaluate(s2, d2, rho)
@@ -337,7 +371,8 @@ def run_check(prop, tier):
 
     def process(script, cx, acts, vals, tag):
         w = F.width(script)
-        reqs = [{"op": "expr.run", "script": script, "action": a, "cplx": cx} for a in acts]
+        reqs = [dict({"op": "expr.run", "script": script, "action": a, "cplx": cx},
+                     **({"ideals": vals[:6]} if a[0] in ("build", "simplify") and a[-1] != "widening" else {})) for a in acts]
         models = drv.ask_many(reqs)
         nontriv = False
         timeouts = 0
@@ -360,6 +395,22 @@ def run_check(prop, tier):
             if isinstance(m, str):
                 ck.count("model." + m)
                 continue
+            if real[0] == "timeout":
+                continue
+            # second reference implementation: the Lean `ideal` of the model's result vs the Python reference of the script
+            if want_c01 and isinstance(m, list) and m[0] == "ok" and len(m) > 4 and isinstance(m[4], list) and w is not None:
+                for val, iv in zip(vals[:6], m[4]):
+                    try:
+                        rv = F.evaluate(script, decl, valmap(val))
+                    except Exception:
+                        rv = None
+                    if rv is not None and iv is not None:
+                        ck.count("lean-ideal.compared")
+                        if iv not in rv[1]:
+                            ck.count("lean-ideal.mismatch")
+                            if not v:
+                                corr_broken.append((script, cx, a, real, m, "Lean ideal of the model result %r not among the reference values %r" % (iv, sorted(rv[1])[:2])))
+                            break
             if a[0] == "simplify" and a[1] == "widening" or (real[0] == "ok" and has_vec(real[1])):
                 # vec / vecw results are C19's fragment: only outcome class and size are compared here
                 ok = (real[0] == m[0]) and (real[0] != "ok" or real[3] == m[3])
